@@ -197,6 +197,7 @@ FAMILIES["cluster"] = {
                    522: "C05: a node holds a record of a member at an incarnation above every counter that member ever reached (C05_claims_below_owner / C05_claims_below_history)",
                    523: "C05: a stream write to an unresponsive host was still blocked long after every deadline (the periodic push/pull goroutine of that node is stuck: its anti-entropy has stopped)",
                    536: "C03: a stream write to an unresponsive host was still blocked long after every deadline (the probe's TCP fallback never returns: that node's failure detector has stopped)",
+                   524: "C05: a member that a node held (alive or Suspect) throughout two passes of its probe cursor was not probed in the second: a suspected member is no longer pinged, so it is never handed the suspicion and its refutation has no acknowledgement to ride on",
                    521: "C05: views did not converge; the live nodes were connected through member lists but not through fresh Alive records (D-C05)",
                    530: "C03: a survivor that listed the crashed member delivered no leave event within the bound",
                    531: "C03: a survivor still lists the crashed member at the end",
